@@ -577,9 +577,11 @@ func p0keys(m *model) []string {
 var Engine = &core.Engine{
 	ID:    "C10",
 	Level: "exploration",
-	Rule: "per case one model type built with reflect.StructOf (key int64 / uint / string / composite (int64,string); 3..7 fields of 20 Go kinds incl. pointers and sql.Null*, custom column names, one random permission tag each out of <-:create, <-:update, <-:false, <-, ->, ->;<-:create, ->;<-:update, ->:false;<-:create, ->:false;<-, ->:false, -, -:migration, -:all; about 3 data fields in 10 also carry a default value in either tag order - default:(SQL expression) or default:null, which only the database evaluates (schema.FieldsWithDefaultDBValue), or a literal default:N / default:text gorm writes itself for a zero value - with the same DEFAULT in the table's DDL; 0..3 tracked time fields: UpdatedAt/CreatedAt by name, autoUpdateTime (time, seconds, milli, nano), autoCreateTime) over a table created with raw SQL holding 3..6 rows of unique sentinels; 12 writes per case, each on a re-seeded table: " +
-		"Create(struct | slice | []*T | map | []map), CreateInBatches, upsert (DoUpdates AssignmentColumns / Assignments, UpdateAll, DoNothing; conflicting and new keys mixed), Save (existing key, new key, zero key, slice, under a Where), Updates(struct by value/pointer, value = model), Updates(map), Update, UpdateColumn, UpdateColumns(struct | map) x Select/Omit (none, names, '*', '*'+Omit, names+Omit, Omit('*'); each name spelled as field name, column name or - 1 column spelling in 6 - column name qualified with the written table 'tbl.col'; the list of names handed over as Select(a, b, c), Select([]string{..}), Select(a, []string{..}), Select([]string{..}, c), Select([]string{a}, []string{..}), Omit(a, b, c) or - 2 in 5 lists of two or more names - ONE comma-joined string Omit(\"a,b\" | \"a, b\" | \"a , b\") with every mix of spellings at every position) x values zero / non-zero / pointer-to-zero / nil / gorm.Expr x targets Model(key), Where (8 forms, 1..2), Model(key)+Where, Model(slice of keys)[+Where], missing key, value = model [+Where]; creates whose records carry integer keys while the key column is omitted / left unselected (1 in 5: the database must assign the key); one operation in three runs its chain calls (Model, Where, Select, Omit, Clauses) in a random order; a column an INSERT may not write must hold the column's DDL default (else NULL); " +
-		"distinct = (finisher, target form, Select/Omit mode and spelling, permission tags denied, value forms, which check classes occurred, key kind, kinds of default whose given value had to be kept out of an INSERT, key carried but omitted, chain calls reordered, call form of the Select list and of the Omit list incl. the separator of a comma-joined one); non-trivial = at least one cell had to be written or refreshed, or a given value had to be kept out by a permission tag / Select / Omit",
+	Rule: "per case one model type built with reflect.StructOf (key int64 / uint / string / composite (int64,string); 3..7 fields of 20 Go kinds incl. pointers and sql.Null*, custom column names, one random permission tag each out of <-:create, <-:update, <-:false, <-, ->, ->;<-:create, ->;<-:update, ->:false;<-:create, ->:false;<-, ->:false, -, -:migration, -:all; about 3 data fields in 10 also carry a default value in either tag order - default:(SQL expression) or default:null, which only the database evaluates (schema.FieldsWithDefaultDBValue), or a literal default:N / default:text gorm writes itself for a zero value - with the same DEFAULT in the table's DDL; 0..3 tracked time fields: UpdatedAt/CreatedAt by name, autoUpdateTime (time, seconds, milli, nano), autoCreateTime); in half of the models the non-key fields are spread over the top level and 1..2 EMBEDDED STRUCTS (embedded by tag or anonymously, by value or by pointer, with or without embeddedPrefix, one level of nesting) and 0..2 columns get a DUPLICATE field of the same Go name on a path of another length: " +
+		"a field without any permission (<-:false;->:false in either tag order) on the shorter path (top level) declared after - 1 in 3: before - the embedded struct whose writable field keeps serving the column, a field without any permission on the longer path, or a promoted field with a random permission tag shadowed by the outer field that owns the column (left zero); duplicates without permission carry non-zero values 3 times in 4, which must never reach the column; " +
+		"the table is created with raw SQL and holds 3..6 rows of unique sentinels; half of the composite-key models seed keys whose parts may be zero ((0,'a'), (1,'')); 12 writes per case, each on a re-seeded table: " +
+		"Create(struct | slice | []*T | map | []map), CreateInBatches, upsert (DoUpdates AssignmentColumns / Assignments, UpdateAll, DoNothing; conflicting and new keys mixed), Save (existing key, new key, zero key, slice, under a Where), Updates(struct by value/pointer, value = model), Updates(map), Update, UpdateColumn, UpdateColumns(struct | map) x Select/Omit (none, names, '*', '*'+Omit, names+Omit, Omit('*'); each name spelled as field name, column name or - 1 column spelling in 6 - column name qualified with the written table 'tbl.col'; the list of names handed over as Select(a, b, c), Select([]string{..}), Select(a, []string{..}), Select([]string{..}, c), Select([]string{a}, []string{..}), Omit(a, b, c) or - 2 in 5 lists of two or more names - ONE comma-joined string Omit(\"a,b\" | \"a, b\" | \"a , b\") with every mix of spellings at every position) x values zero / non-zero / pointer-to-zero / nil / gorm.Expr x targets Model(key), Where (8 forms, 1..2), Model(key)+Where, Model(slice | array, of T | *T, of keys)[+Where] whose elements may have a zero key PART (composite keys), repeat a key (1 in 6) or carry no key at all (1 in 5; one time in three as the last element), missing key, value = model [+Where]; creates whose records carry integer keys while the key column is omitted / left unselected (1 in 5: the database must assign the key); one operation in three runs its chain calls (Model, Where, Select, Omit, Clauses) in a random order; a column an INSERT may not write must hold the column's DDL default (else NULL); " +
+		"distinct = (finisher, target form, Select/Omit mode and spelling, permission tags denied, value forms, which check classes occurred, key kind, kinds of default whose given value had to be kept out of an INSERT, key carried but omitted, chain calls reordered, call form of the Select list and of the Omit list incl. the separator of a comma-joined one, cells written through an embedded struct, embedding forms of the model, roles of the duplicate fields next to a checked cell, container and element forms of a Model(slice)); non-trivial = at least one cell had to be written or refreshed, or a given value had to be kept out by a permission tag / Select / Omit",
 	Assumptions: []string{
 		"the table is created with raw SQL (the migrator is not under test) and every chain starts with db.Table(name) (reflect.StructOf types have no name); ignored fields (`-`, `-:all`) get a ghost column so that a write to them is visible",
 		"`->:false` without a `<-` tag: the statement does not fix its write permission, the column is not checked in addressed rows (rows outside the target are)",
@@ -590,7 +592,7 @@ var Engine = &core.Engine{
 		"map keys of ignored fields are spelled by field name only (the column spelling of a field without column is a plain unknown column), and map creates never name an ignored field (gorm renders an INSERT with an empty column name, a plain SQL error that writes nothing)",
 		"Create of several maps passes &[]map[string]interface{} (the non-pointer form fails in Scan of the RETURNING row on this dialect, which is not a write-set matter); every generated INSERT has at least one column (DEFAULT VALUES inserts are outside the statement)",
 		"Omit('*') only on Updates/Update/UpdateColumn(s); Save of a new key and Save under a condition only with Omit; upsert with explicit DoUpdates without Select/Omit; UpdateAll only with Omit",
-		"batches carry either only zero keys or only explicit keys; the new keys are then max+1.. (SQLite rowid) resp. the given ones; composite keys are always given completely (both parts non-zero)",
+		"batches carry either only zero keys or only explicit keys; the new keys are then max+1.. (SQLite rowid) resp. the given ones; composite keys of records (creates, upserts, Save) and of STRUCT model values are always given completely (both parts non-zero): a struct value with a partly zero key is addressed by its non-zero parts only, which the statement does not fix; rows with a partly zero key are addressed by conditions and by the elements of a Model(slice), whose keys are taken literally, zero parts included",
 		"conditions are evaluated by SQLite itself (raw SELECT) to get the target set; their rendering is C02's subject",
 		"default values: a zero struct value of a field with a default must end up as the default OR as the zero value (the statement does not say which); in an upsert conflict row the new value of such a field is not checked when it is zero or when the default is database-evaluated (UpdateAll leaves those columns out), while denied / omitted / unlisted columns must still stay; in a batch of maps a key only other maps carry is not checked on a default column (NULL versus default)",
 		"within one batch of structs a database-evaluated default field is zero in every record or non-zero in every record (for a mixed batch gorm renders the DEFAULT keyword, which SQLite does not parse); time and []byte fields only get default:null; key, tracked-time and ignored fields get no default",
@@ -599,7 +601,11 @@ var Engine = &core.Engine{
 		"the chain calls commute: Table() always comes first, the finisher last, map conditions use column names (no model is needed to resolve them)",
 		"one violation per distinct class of disagreement of an operation (so a known finding does not hide another class in the same operation); the known-finding signature upsert-doupdates-ignores-update-permission is only given to existing (conflicting) rows",
 		"name lists: Omit's documented one-string form is a comma-separated list (separators: a comma with optional blanks around it; other separators gorm happens to split on are not generated); a comma-joined string given to Select is NOT generated (on write paths gorm takes it as one unknown name: not fixed by the statement); Select and Omit are each called at most once per chain (a second call replaces the first list: not fixed by the statement); the table-qualified spelling is only used with the column name and the statement's own table (db.Table(name)), never with a field name, another table, quotes or 'tbl.*'",
-		"the value of Updates(struct) has the model's own type (different-schema values are not generated); Model(slice) only with non-zero keys",
+		"the value of Updates(struct) has the model's own type (different-schema values are not generated)",
+		"Model(slice): an element without key (all key parts zero) addresses no row, the other elements still restrict the update; at least one element has a key; a slice whose LAST element has no key is reported under its own signature model-slice-last-element-without-key/<class>",
+		"embedded structs: keys stay at the top level; Go field names are unique over the whole model except for the duplicate pairs, so the field-name spelling of Select/Omit/map keys is unambiguous; embedded pointers are non-nil whenever a field below them is set",
+		"duplicate columns: exactly two fields share a column, they have the same Go name and sit on paths of DIFFERENT length (two fields on paths of equal length sharing a column, duplicates with another Go name via column:, and three or more fields per column are not generated: which field owns the column is not fixed by the statement); one of the two has either no permission at all (then the other one's rules apply unchanged: it is written where the statement says so, and the permission-less field's value never is) or is the deeper, promoted field shadowed by an outer field with some permission (Go's shadowing: the outer field owns the column, the inner one is always left zero); names and map keys address the owning field; duplicates carry no default and are never key, tracked-time or ignored fields",
+		"a permission-less duplicate on the shorter path declared BEFORE the embedded struct that holds the writable field: a predicted write of that column that does not happen is reported under its own signature permissionless-outer-duplicate-declared-first/column-not-written; such a column does not count as a column of an INSERT (every generated INSERT has at least one other column)",
 	},
 	Cases: func(tier string) int {
 		if tier == "thorough" {
